@@ -14,7 +14,7 @@
    represented by its content: every access rewinds it, and nothing writes to
    it after _body_read returned, so its read position and identity are not
    observable through request.body.  No proofs in this file. *)
-From Verif Require Import lib.Base model.Stream model.Body.
+From Verif Require Import lib.Base lib.Str model.Stream model.Body.
 
 Record req := mkReq {
   r_input : nat;                 (* which stream environ['wsgi.input'] refers to (until buffered) *)
@@ -166,3 +166,22 @@ Definition corr_C04_all (inp : list Z) : list Z :=
   | 1%Z :: r => corr_C04_ops r
   | _ => bad_input
   end.
+
+(* ---- the invalidation table of BaseRequest._on_env_changed (extracted into Gen.env_changed_table) ----
+   which cached views `request[key] = value` drops: the first entry whose test accepts the key *)
+Definition entry_matches (e : (str * bool) * list str) (key : str) : bool :=
+  let '((k, is_prefix_test), _) := e in
+  if is_prefix_test then Str.prefixb k key else str_eqb key k.
+
+Fixpoint views_dropped (table : list ((str * bool) * list str)) (key : str) : list str :=
+  match table with
+  | [] => []
+  | e :: t => if entry_matches e key then snd e else views_dropped t key
+  end.
+
+Definition s_body_view : str := [98; 111; 100; 121]%N.          (* 'body' *)
+Definition s_wsgi_input : str := [119; 115; 103; 105; 46; 105; 110; 112; 117; 116]%N.   (* 'wsgi.input' *)
+
+(* does assigning environ[key] drop the buffered body ? *)
+Definition drops_body (table : list ((str * bool) * list str)) (key : str) : bool :=
+  existsb (str_eqb s_body_view) (views_dropped table key).
